@@ -169,6 +169,20 @@ Example C04_example :
            [x00].
 Proof. vm_compute. reflexivity. Qed.
 
+From NF Require Import Cisco.
+Open Scope string_scope.
+
+(* the PROTOCOL field (V9 element 4, one byte) is decoded through the enum's discriminants: for
+   every assigned protocol number the value carries the IANA keyword of that number (full list in
+   Spec/Cisco.v) *)
+Theorem C04_protocol_names :
+  forallb (fun a => match proto_parse (N.of_nat (fst a)) with
+                    | Some d => String.eqb (variant_name proto_variants d) (snd a)
+                    | None => false
+                    end) iana_protocols = true.
+Proof. vm_compute. reflexivity. Qed.
+Print Assumptions C04_protocol_names.
+
 (* ---- buffer level (imports kept local: they shadow names used above) ---- *)
 From NF Require Import Parser IxStream IxStreamFacts BufferFacts.
 
